@@ -89,6 +89,9 @@ type LoopSpec struct {
 	Decreases  Expr
 	Ghosts     []string
 	Updates    []GhostUpdate
+	Emits      []EventPat
+	HasEmits   bool
+	EmitTags   []string
 }
 
 // GhostUpdate: at the back edge, ghost array G gets G[Key] = Val (when Cond holds).
@@ -957,7 +960,11 @@ func parseSpecFile(path string, pkg string) (sf *SpecFile, err error) {
 			curL, curC = nil, nil
 		case "emits":
 			tags, body := parseTags(rc.text)
-			if curB != nil {
+			if curL != nil {
+				curL.Emits = parseEmits(body, where)
+				curL.HasEmits = true
+				curL.EmitTags = tags
+			} else if curB != nil {
 				curB.Emits = parseEmits(body, where)
 				curB.HasEmits = true
 				curB.EmitTags = tags
